@@ -488,12 +488,21 @@ pub struct ChildObs {
     pub timed_out: bool,
 }
 
+/// marker input for `run_child`: the child gets a directory as its standard input
+pub const STDIN_IS_A_DIRECTORY: &[u8] = b"\0<stdin is a directory>";
+
 pub fn run_child(bin: &str, args: &[String], input: &[u8], mode: OutMode) -> std::io::Result<ChildObs> {
     use std::os::fd::{FromRawFd, OwnedFd};
     use std::os::unix::process::ExitStatusExt;
     use std::process::{Command, Stdio};
     let mut cmd = Command::new(bin);
-    cmd.args(args).stdin(Stdio::piped()).stderr(Stdio::piped());
+    // an input that cannot be read at all: the standard input is a directory (every read fails with EISDIR)
+    let stdin_is_dir = input == STDIN_IS_A_DIRECTORY;
+    if stdin_is_dir {
+        cmd.args(args).stdin(std::fs::File::open(work_dir())?).stderr(Stdio::piped());
+    } else {
+        cmd.args(args).stdin(Stdio::piped()).stderr(Stdio::piped());
+    }
     cmd.env("RUST_BACKTRACE", "0");
     match mode {
         OutMode::Pipe => {
@@ -513,10 +522,12 @@ pub fn run_child(bin: &str, args: &[String], input: &[u8], mode: OutMode) -> std
         }
     }
     let mut child = cmd.spawn()?;
-    let mut stdin = child.stdin.take().unwrap();
+    let stdin = child.stdin.take();
     let data = input.to_vec();
     let feeder = std::thread::spawn(move || {
-        let _ = stdin.write_all(&data);
+        if let Some(mut stdin) = stdin {
+            let _ = stdin.write_all(&data);
+        }
     });
     let mut out_pipe = child.stdout.take();
     let out_reader = std::thread::spawn(move || {
